@@ -134,6 +134,8 @@ fn main() {
                     "c15p" => AnyCase::Conc(gen::c15_persist(run_seed)),
                     "c15e" => AnyCase::Conc(gen::conc_engine(run_seed, 0)),
                     "c20" => AnyCase::Conc(gen::conc_engine(run_seed, 1)),
+                    "c20h" => AnyCase::Conc(gen::conc_handler(run_seed, 0)),
+                    "c20hw" => AnyCase::Conc(gen::conc_handler(run_seed, 1)),
                     "c17b" => AnyCase::Conc(gen::conc_engine(run_seed, 2)),
                     "c19b" => AnyCase::Conc(gen::conc_engine(run_seed, 3)),
                     "c14" => AnyCase::Dur(gen::c14_base(run_seed)),
